@@ -1,28 +1,36 @@
 #!/usr/bin/env python3
-"""seedtest.py <patch.diff> <Cxx> [Cyy ...]  — apply a seeded change to /repo, run the quick checks,
-undo the change, print one line per property: DETECTED (with the VIOLATION line) or MISSED."""
-import subprocess, sys, os
+"""seedtest.py <patch.diff> <Cxx> [Cyy ...]  — apply a seeded change to a scratch worktree of /repo
+(never to /repo itself), build, run the unedited suite and the quick checks there (VERIF_REPO), remove the
+worktree, print one line per property: DETECTED (with the VIOLATION line) or MISSED."""
+import subprocess, sys, os, hashlib
 os.environ["VERIF_EVIDENCE_DIR"] = "/verif/.build/seed-evidence"
 patch = os.path.abspath(sys.argv[1])
 pids = sys.argv[2:]
+tier = os.environ.get("SEED_TIER", "quick")
 def sh(cmd, **kw):
     return subprocess.run(cmd, shell=True, capture_output=True, text=True, **kw)
-r = sh("git -C /repo status --porcelain")
-if r.stdout.strip():
-    print("REPO-NOT-CLEAN", r.stdout); sys.exit(2)
-r = sh("git -C /repo apply --whitespace=nowarn %s" % patch)
+wt = "/tmp/st-" + hashlib.sha1(patch.encode()).hexdigest()[:10]
+sh("git -C /repo worktree remove --force %s; rm -rf %s" % (wt, wt))
+r = sh("git -C /repo worktree add -q --detach %s HEAD" % wt)
 if r.returncode != 0:
-    print("PATCH-DOES-NOT-APPLY", r.stderr.strip()[:300]); sys.exit(2)
+    print("WORKTREE-FAILED", r.stderr.strip()[:300]); sys.exit(2)
 try:
-    b = sh("cd /repo && GOFLAGS=-mod=mod GOPROXY=off GOSUMDB=off GOTOOLCHAIN=local go build . ./j2x ./x2j ./x2j-wrapper && go test -vet=off -count=1 . ./j2x ./x2j-wrapper 2>&1 | tail -3")
+    r = sh("git -C %s apply --whitespace=nowarn %s" % (wt, patch))
+    if r.returncode != 0:
+        print("PATCH-DOES-NOT-APPLY", r.stderr.strip()[:300]); sys.exit(2)
+    b = sh("cd %s && GOFLAGS=-mod=mod GOPROXY=off GOSUMDB=off GOTOOLCHAIN=local go build . ./j2x ./x2j ./x2j-wrapper && go test -vet=off -count=1 . ./j2x ./x2j ./x2j-wrapper 2>&1 | tail -4" % wt)
     suite = "suite-ok" if b.returncode == 0 and "FAIL" not in b.stdout else "SUITE-FAILS"
     for pid in pids:
-        env = dict(os.environ)
-        r = sh("cd /verif && ./check %s quick" % pid, env=env)
+        env = dict(os.environ, VERIF_REPO=wt)
+        r = sh("cd /verif && ./check %s %s" % (pid, tier), env=env)
         lines = [l for l in r.stdout.split("\n") if l.startswith("VIOLATION")]
         if r.returncode == 1 and lines:
             print("%s DETECTED %s | %s" % (pid, suite, lines[0][:200]))
         else:
             print("%s MISSED %s rc=%d | %s" % (pid, suite, r.returncode, r.stdout.strip().split("\n")[-1][:200]))
 finally:
-    sh("git -C /repo checkout -- . && git -C /repo clean -fdq")
+    sh("git -C /repo worktree remove --force %s; rm -rf %s" % (wt, wt))
+    import glob
+    h = hashlib.sha1(os.path.realpath(wt).encode()).hexdigest()[:10]
+    for f in glob.glob("/verif/.build/*%s*" % h):
+        os.remove(f)
